@@ -245,7 +245,7 @@ def run(ctx):
     bad, names = [], {}
     for i in crng.permutation(len(traces))[:120]:
         t = traces[int(i)]
-        if not verdicts[t["tid"]]["accept"]:
+        if not verdicts[t["tid"]]["accept"] or verdicts[t["tid"]].get("info") == -1:      # vacuously accepted: nothing to corrupt
             continue
         for name, b in corruptions(t, crng):
             b["tid"] = len(bad) + 1
